@@ -9,10 +9,10 @@ CONSTANTS
   RootSizes = {2}
   ScrubLen = 4
   MaxCommits = 3
-  MaxAppends = 2
-  MaxCrashes = 1
+  MaxAppends = 1
+  MaxCrashes = 2
   MaxCloses = 0
   PostCommits = 1
-  Mutant = "nosync1"
+  Mutant = "noscrub"
 INVARIANTS TypeOK Recoverable CleanReopen DurableRootsSound NothingNewerVisible WithinAlloc FailOnlyBeforeFirstCommit
 CHECK_DEADLOCK FALSE
